@@ -647,6 +647,16 @@ def install(w):
             return a[0].fields[0]
         raise Unsupported("unwrap_or_default")
 
+    @reg("Option::filter")
+    def opt_filter(w, it, a, c):
+        if a[0].variant == "Some":
+            keep = it.call_closure(a[1], [Ref(Cell(a[0].fields[0], "filter-arg"), (), False)])
+            if it.truth(keep):
+                return a[0]
+            it.drop_value(a[0].fields[0])
+            return mk_none()
+        return mk_none()
+
     @reg("Option::and_then")
     def opt_and_then(w, it, a, c):
         if a[0].variant == "Some":
@@ -769,6 +779,10 @@ def install(w):
         else:
             raise Unsupported("mem::take of %r" % (old,))
         return old
+
+    @reg("std::thread::panicking", "thread::panicking", "panicking")
+    def thread_panicking(w, it, a, c):
+        return bool(w.unwinding_now)
 
     @reg("std::cmp::min", "cmp::min")
     def cmp_min(w, it, a, c):
